@@ -41,6 +41,24 @@ def _defs_of(f: Func) -> dict[str, list[ast.AST]]:
     return defs
 
 
+def _raw_text_producers(c: Ctx) -> list[Func]:
+    """renderInlineAsText, and private helpers of the renderer that simply return its result (their callers are held to the
+    same rule: the text may only become an attribute value)."""
+    base = c.p.func("renderer.py:RendererHTML.renderInlineAsText")
+    out = [base]
+    ci = c.p.cls("RendererHTML")
+    for name, m in ci.methods.items():
+        if m is base or not name.startswith("_") or name.startswith("__"):
+            continue
+        rets = [n for n in own_nodes(m.node) if isinstance(n, ast.Return) and n.value is not None]
+        if rets and any(isinstance(x, ast.Call) and isinstance(x.func, ast.Attribute) and x.func.attr == "renderInlineAsText"
+                        for rt in rets for x in ast.walk(rt.value)) and all(
+                isinstance(rt.value, ast.Constant) or (isinstance(rt.value, ast.Call) and isinstance(rt.value.func, ast.Attribute)
+                                                       and rt.value.func.attr == "renderInlineAsText") for rt in rets):
+            out.append(m)
+    return out
+
+
 class EscJudge:
     """Decompose an expression into leaves and say which leaf (if any) is not HTML-safe."""
 
@@ -50,7 +68,7 @@ class EscJudge:
         self.defs = _defs_of(f)
         self.params = {a.arg for a in f.node.args.args + f.node.args.kwonlyargs}
         self.escape = c.p.func("common/utils.py:escapeHtml")
-        self.raw_text_producers = {c.p.func("renderer.py:RendererHTML.renderInlineAsText")}
+        self.raw_text_producers = set(_raw_text_producers(c))
 
     def unsafe_leaf(self, e: ast.AST, seen: frozenset[str] = frozenset()) -> ast.AST | None:
         if isinstance(e, ast.Constant):
@@ -196,6 +214,19 @@ def rule_esc(c: Ctx) -> RuleResult:
         r.functions += 1
         j = EscJudge(c, f)
         rets = [n for n in own_nodes(f.node) if isinstance(n, ast.Return) and n.value is not None]
+        if f in _raw_text_producers(c) and f.name != "renderInlineAsText":
+            # judged like renderInlineAsText: only the uses of its result matter
+            for g, sites in c.cg.sites.items():
+                for cs in sites:
+                    if f in cs.callees and g is not f:
+                        par_ = g.module.parents.get(cs.node)
+                        ok = isinstance(par_, ast.Call) and isinstance(par_.func, ast.Attribute) and par_.func.attr == "attrSet" \
+                            and len(par_.args) == 2 and par_.args[1] is cs.node
+                        r.add(f"{g.short}|rawtext-use|{f.name}", c.where(g, cs.node), g.short, U(par_)[:70] if par_ is not None else U(cs.node),
+                              "discharged" if ok else "violation",
+                              "raw text flows only into an attribute value, which renderAttrs escapes" if ok else
+                              f"unescaped text of {f.name} (renderInlineAsText) is used outside an attribute value")
+            continue
         if f.name == "renderInlineAsText":
             # raw-text producer: its result may only flow into an attribute value (escaped by renderAttrs)
             for g, sites in c.cg.sites.items():
@@ -209,6 +240,15 @@ def rule_esc(c: Ctx) -> RuleResult:
                             if isinstance(par_, ast.Call) and isinstance(par_.func, ast.Attribute) and par_.func.attr == "attrSet" \
                                     and len(par_.args) == 2 and par_.args[1] is expr:
                                 return True
+                            if isinstance(par_, ast.Return) and g.cls == "RendererHTML" and g.name.startswith("_") and depth < 2:
+                                # a private helper of the renderer that returns the raw text: all uses of *its* result count
+                                hs = [x for x in c.cg.callers.get(g, []) if x.kind in ("direct", "method")]
+                                if hs and len(hs) == len(c.cg.callers.get(g, [])):
+                                    def use_ok(x) -> bool:
+                                        pp = x.caller.module.parents.get(x.node)
+                                        return isinstance(pp, ast.Call) and isinstance(pp.func, ast.Attribute) and pp.func.attr == "attrSet" \
+                                            and len(pp.args) == 2 and pp.args[1] is x.node
+                                    return all(use_ok(x) for x in hs)
                             if isinstance(par_, ast.Assign) and len(par_.targets) == 1 and isinstance(par_.targets[0], ast.Name) and depth < 2:
                                 v_ = par_.targets[0].id
                                 uses = [x for x in own_nodes(g.node) if isinstance(x, ast.Name) and x.id == v_ and isinstance(x.ctx, ast.Load)]
@@ -290,26 +330,40 @@ def rule_raw(c: Ctx) -> RuleResult:
             continue
         n += 1
         f = ts.func
-        cfg, facts = c.facts(f)
-        ok = False
-        why = ""
-        for node in cfg.owner(ts.node):
-            z = facts.get(node.id)
-            if z is None:
-                ok = True
-                why = "unreachable"
-                continue
-            ok = False
-            for (txt, pol) in z.preds:
-                try:
-                    e = ast.parse(txt, mode="eval").body
-                except SyntaxError:
+
+        def html_tested(g: Func, at: ast.AST, depth: int = 0) -> tuple[bool, str]:
+            """Is `at` (in g) reached only behind a true test of option html - in g itself, or, for a private helper of the rule's
+            module, at every one of its call sites?"""
+            cfg, facts = c.facts(g)
+            ok_, why_ = False, ""
+            for node in cfg.owner(at):
+                z = facts.get(node.id)
+                if z is None:
+                    ok_, why_ = True, "unreachable"
                     continue
-                if pol and option_read_key(e) == "html":
-                    ok = True
-                    why = f"dominated by a true test of `{txt}`"
-            if not ok:
-                break
+                ok_ = False
+                for (txt, pol) in z.preds:
+                    try:
+                        e = ast.parse(txt, mode="eval").body
+                    except SyntaxError:
+                        continue
+                    if pol and option_read_key(e) == "html":
+                        ok_, why_ = True, f"dominated by a true test of `{txt}`"
+                if not ok_:
+                    break
+            if ok_:
+                return True, why_
+            callers = c.cg.callers.get(g, [])
+            if depth < 2 and callers and all(cs_.kind in ("direct", "method") and cs_.caller.module is g.module for cs_ in callers):
+                hows = []
+                for cs_ in callers:
+                    o_, h_ = html_tested(cs_.caller, cs_.node, depth + 1)
+                    if not o_:
+                        return False, ""
+                    hows.append(f"{cs_.caller.short}: {h_}")
+                return True, "every call of the helper is " + "; ".join(hows)
+            return False, ""
+        ok, why = html_tested(f, ts.node)
         r.add(f"{f.short}|push|{'/'.join(ts.kinds)}", c.where(f, ts.node), f.short, U(ts.node)[:60], "discharged" if ok else "violation",
               why if ok else "an html token can be produced although option html was not tested true on this path: raw input would reach the output")
     r.functions = n
